@@ -167,6 +167,21 @@ def check_entry(ctx, fb, cfg, fn, need_root, need_x, roots=False, tag=""):
             for a in con:
                 if a[2][1] == V["root"] and roots_vec_ok(ctx, fb, eng, it, paths, a[2][0], ROOTS):
                     good = True
+            # the same membership test written as roots.iter().any(|r| *r == carried root)
+            for a in atoms:
+                if isinstance(a, tuple) and a[0] == "call" and a[1].endswith("Iterator>::any") and len(a[2]) == 2 and isinstance(a[2][1], tuple) and a[2][1][0] == "closure":
+                    seq = a[2][0]
+                    while isinstance(seq, tuple) and seq and seq[0] == "call" and re.search(r"::(iter|into_iter)$", seq[1]) and seq[2]:
+                        seq = seq[2][0]
+                    cl = a[2][1]
+                    cit = fb.items.get(cl[1])
+                    if cit is None or len(cl[2]) != 1 or cl[2][0] != V["root"]:
+                        continue
+                    e3 = Engine(fb, inline=lambda i: False)
+                    rets = [e3.value_of(q.store, q.ret) for q in e3.run(cit) if q.kind == "return"]
+                    cap = F(P(1), "0")
+                    if len(rets) == 1 and isinstance(rets[0], tuple) and rets[0][0] == "eq" and {rets[0][1], rets[0][2]} == {P(2), cap} and roots_vec_ok(ctx, fb, eng, it, paths, seq, ROOTS):
+                        good = True
             if not good:
                 ctx.fail("R02-1", inst, "a path returning Ok(true) is conditioned neither on an empty root set nor on roots.contains(carried root) "
                                         "(atoms: %s)" % [sh(a, 90) for a in atoms if a[0] in ("is_empty", "call")], loc(it, p.site))
